@@ -68,10 +68,10 @@ func c25GenHost(t *rapid.T) string {
 	case 0:
 		return fmt.Sprintf("%d.%d.%d.%d", rapid.IntRange(0, 255).Draw(t, "ip_a"), rapid.IntRange(0, 255).Draw(t, "ip_b"), rapid.IntRange(0, 255).Draw(t, "ip_c"), rapid.IntRange(0, 255).Draw(t, "ip_d"))
 	case 1:
-		return rapid.SampledFrom([]string{"127.0.0.1", "localhost", "0.0.0.0", "node-1.cluster.local", "a", "10.0.0.12"}).Draw(t, "host_b")
+		return rapid.SampledFrom([]string{"127.0.0.1", "localhost", "0.0.0.0", "node-1.cluster.local", "a", "10.0.0.12", "::1", "2001:db8::1", "fe80::1ff:fe23:4567:890a"}).Draw(t, "host_b")
 	default:
-		// hostname: labels of letters/digits/hyphens separated by dots (IPv6 literals are a
-		// separate, already recorded address-format finding of property C26 and are left out)
+		// hostname: labels of letters/digits/hyphens separated by dots (IPv6 literals are in the
+		// sampled hosts above: address.Parse accepts them since /repo c370f6a, property C26)
 		n := rapid.IntRange(1, 3).Draw(t, "host_labels")
 		var parts []string
 		for i := 0; i < n; i++ {
@@ -303,7 +303,7 @@ func c25ExecInternal(x *vfkit.X, c c25InternalCase) {
 func TestVF_C25_internal(t *testing.T) {
 	vfkit.Run(t, vfkit.Spec[c25InternalCase]{
 		ID: "C25", Unit: "internal",
-		Rule: "cases = *Terminated (nil path or address from generated system/host(IPv4|hostname)/port/name/optional parent; terminatedAt = any int64 unix-nano instant in UTC) or *PoisonPill, plus a frame alteration (truncate per-mille, append bytes) and a foreign frame; serialized with the serializer a setupRemoting-like client chooses, decoded directly and via the composite dispatcher; non-trivial = Terminated with a non-nil path round-tripped both ways",
+		Rule: "cases = *Terminated (nil path or address from generated system/host(IPv4|IPv6 literal|hostname)/port/name/optional parent; terminatedAt = any int64 unix-nano instant in UTC) or *PoisonPill, plus a frame alteration (truncate per-mille, append bytes) and a foreign frame; serialized with the serializer a setupRemoting-like client chooses, decoded directly and via the composite dispatcher; non-trivial = Terminated with a non-nil path round-tripped both ways",
 		Gen:  c25GenInternal, Exec: c25ExecInternal,
 	})
 }
